@@ -104,12 +104,17 @@ class BaseClient(object):
         elif not(self.resp.status_code == 200 or self.resp.status_code == 201):
             raise ClientError("Error connecting to %s on url %s, response [%d] %s" %
                               (self.provider, log_url, self.resp.status_code, resp_text))
+        if not self.resp.content:
+            raise ClientError("Empty response from %s on url %s" % (self.provider, log_url))
         try:
             if not self.resp.apparent_encoding and not self.resp.encoding:
                 return self.resp.content
-            return json.loads(self.resp.text)
+            res = json.loads(self.resp.text)
         except ValueError or json.decoder.JSONDecodeError:
             return self.resp.text
+        if res is None:
+            raise ClientError("Empty response from %s on url %s" % (self.provider, log_url))
+        return res
 
     def _address_convert(self, address):
         if not isinstance(address, Address):
